@@ -308,15 +308,18 @@ def compare_fields(fields, a, nd, what):
                             % (what, i, tok, x.item(), nd, a.shape, a.dtype))
 
 
-def require_in_range(a):
+def in_range(a):
+    """All entries finite and of magnitude below 9999 (the domain of the element clauses)."""
     if a.dtype.kind == "f":
-        ok = bool(np.all(np.isfinite(a))) and bool(np.all(np.abs(a.astype(np.float64)) < 9999))
-    elif a.dtype.kind in "iu":
-        ok = bool(np.all(np.abs(a.astype(np.int64)) < 9999))
-    else:
-        ok = a.dtype.kind == "b"
-    if not ok:
-        raise HarnessError("generator produced an out-of-range array for a faithfulness clause")
+        return bool(np.all(np.isfinite(a))) and bool(np.all(np.abs(a.astype(np.float64)) < 9999))
+    if a.dtype.kind in "iu":
+        return bool(np.all(np.abs(a.astype(np.int64)) < 9999))
+    return a.dtype.kind == "b"
+
+
+def require_in_range(a):
+    if not in_range(a):
+        raise HarnessError("generator produced an out-of-range array for an element clause")
 
 
 # --------------------------------------------------------------------------------------------------
@@ -376,6 +379,33 @@ def c_latex_elements(case, ctx):
     fields, rows = latex_fields(ret)
     ctx.note("rows", rows)
     compare_fields(fields, a, nd, "LaTeX mode")
+
+
+def c_everything(case, ctx):
+    """All four statements on one request, each where it applies (the predicate the coverage-guided campaign
+    runs, and the one its saved inputs are replayed through)."""
+    if "obj" not in case:
+        raise HarnessError("not a display request: %r" % (sorted(case),))
+    c_print(case, ctx)          # includes (1): returns a str without raising
+    a = _arr_of(case["obj"])
+    if a is not None and in_range(a):
+        if case["mode"] == 0 and a.ndim <= 4:
+            c_table_elements(case, Ctx_null())
+        elif case["mode"] != 0 and a.ndim == 2:
+            c_latex_elements(case, Ctx_null())
+
+
+class Ctx_null:
+    """Label sink for the second predicate run on the same case."""
+
+    def label(self, name):
+        pass
+
+    def nontrivial(self, flag=True):
+        pass
+
+    def note(self, key, value):
+        pass
 
 
 # --------------------------------------------------------------------------------------------------
@@ -613,9 +643,12 @@ def objects(draw):
     return draw(containers(st.recursive(leaves(), containers, max_leaves=8)))
 
 
-def requests(obj, mode):
-    return st.fixed_dictionaries({"obj": obj, "title": titles(), "nd": nds(), "mode": mode,
-                                  "pdims": st.sampled_from([None, None, True, False]), "noprint": st.booleans()})
+@st.composite
+def requests(draw, obj, mode):
+    # built by hand: under Hypothesis 6.168 fuzz_one_input rejects every input for st.fixed_dictionaries with more
+    # than three keys, which would starve the coverage-guided campaign (props/fuzz_c20_atheris.py)
+    return {"obj": draw(obj), "title": draw(titles()), "nd": draw(nds()), "mode": draw(mode),
+            "pdims": draw(st.sampled_from([None, None, True, False])), "noprint": draw(st.booleans())}
 
 
 @st.composite
@@ -642,12 +675,94 @@ def total_strategy():
 
 
 CLAUSES = [
-    Clause("returns_str_never_raises", c_total, total_strategy(), 5000, 160000,
+    Clause("returns_str_never_raises", c_total, total_strategy(), 4000, 160000,
            doc="(1) totality: every listed object in table mode, 2-D matrices in LaTeX mode"),
-    Clause("prints_exactly_the_returned_string", c_print, total_strategy(), 3000, 100000,
+    Clause("prints_exactly_the_returned_string", c_print, total_strategy(), 2500, 100000,
            doc="(2) captured stdout == returned string + newline, or nothing with noprint"),
-    Clause("table_shows_every_element_rounded", c_table_elements, faithful_requests(0), 6000, 200000,
+    Clause("table_shows_every_element_rounded", c_table_elements, faithful_requests(0), 5000, 200000,
            doc="(3) table mode, arrays of 0..4 axes, |x|<9999"),
-    Clause("latex_shows_every_element_rounded", c_latex_elements, faithful_requests(1), 4000, 140000,
+    Clause("latex_shows_every_element_rounded", c_latex_elements, faithful_requests(1), 3500, 140000,
            doc="(4) LaTeX mode, 2-D matrices, |x|<9999"),
-]
+    ]
+
+
+# --------------------------------------------------------------------------------------------------
+# optional extra: coverage-guided campaign (atheris), see props/fuzz_c20_atheris.py
+# --------------------------------------------------------------------------------------------------
+
+FUZZ_BUDGET = {"quick": (1500, 30), "thorough": (60000, 170)}    # (libFuzzer -runs, -max_total_time seconds)
+
+
+def fuzz_run_range(lo, hi, tier, stats):
+    """One campaign (index 0 of an enumeration of size 1).  The campaign runs in a child process; every request
+    it saved as failing is replayed HERE through the plain predicate and only then reported."""
+    if hi <= lo:
+        return
+    import json
+    import os
+    import shutil
+    import subprocess
+    import sys
+    from vf import ser
+    from vf.core import Ctx
+    verif = os.path.dirname(os.path.dirname(os.path.abspath(__file__)))
+    runs, seconds = FUZZ_BUDGET[tier]
+    try:
+        seed = int(os.environ.get("VERIF_SEED", "0") or 0)
+    except ValueError:
+        seed = 0
+    out = os.path.join(verif, ".cache", "fuzz", "C20-%d" % os.getpid())
+    shutil.rmtree(out, ignore_errors=True)
+    os.makedirs(out)
+    try:
+        cmd = [sys.executable, os.path.join(verif, "props", "fuzz_c20_atheris.py"), "--out", out,
+               "--runs", str(runs), "--seconds", str(seconds), "--seed", str(seed % (2 ** 31 - 2) + 1)]
+        r = subprocess.run(cmd, cwd=verif, stdout=subprocess.PIPE, stderr=subprocess.STDOUT, text=True,
+                           timeout=seconds + 300)
+        summary = os.path.join(out, "summary.json")
+        if r.returncode != 0 or not os.path.exists(summary):
+            raise HarnessError("atheris campaign ended with status %s:\n%s" % (r.returncode, r.stdout[-3000:]))
+        with open(summary) as f:
+            state = json.load(f)
+        stats.evals += state["valid"]
+        stats.nontrivial_bulk += state["distinct_nontrivial"]
+        stats.labels.update(state["labels"])
+        stats.extra["fuzz_executions"] = state["execs"]
+        stats.extra["fuzz_corpus_units"] = len(os.listdir(os.path.join(out, "corpus")))
+        stats.extra["fuzz_violations_seen"] = state["violations"]
+        stats.exhaustive = False
+        crash_dir = os.path.join(out, "crashes")
+        for name in sorted(os.listdir(crash_dir)):
+            if not name.endswith(".json"):
+                continue
+            with open(os.path.join(crash_dir, name)) as f:
+                rec = json.load(f)
+            case = ser.from_jsonable(rec["case"])
+            try:
+                c_everything(case, Ctx(replay=True))
+            except Violation as v:
+                if stats.failure is None:
+                    stats.failure = (rec["case"], "found by the atheris campaign, replayed without it: " + str(v))
+                continue
+            raise HarnessError("input saved by the campaign (%s) holds when replayed through the plain predicate"
+                               % rec["message"][:200])
+        if state["valid"] == 0:
+            raise HarnessError("atheris campaign judged no request at all")
+    finally:
+        shutil.rmtree(out, ignore_errors=True)
+
+
+def _atheris_available():
+    import importlib.util
+    try:
+        return importlib.util.find_spec("atheris") is not None
+    except (ImportError, ValueError):
+        return False
+
+
+if _atheris_available():
+    # registered only where ./setup.sh could install the wheel; the four Hypothesis clauses never depend on it
+    CLAUSES.append(Clause("atheris_coverage_guided", c_everything, kind="enum", size=lambda tier: 1,
+                          run_range=fuzz_run_range, max_shards=1,
+                          doc="libFuzzer mutations -> Hypothesis fuzz_one_input -> the same requests and predicates; "
+                              "coverage feedback from basic_robotics.utilities.disp only"))
